@@ -24,8 +24,9 @@ RULE = (
     "annotated assignment, loop / with / except / import / walrus target, attribute store o.x, return value "
     "#value, closure variable) x 1-3 handlers on the same variable in generated activation order, each an "
     "override (constant | function of the tentative value | function of a context capture | conditional "
-    "decline) or a plain probe, delivered through OverridableProbe.override/koverride/filter or through "
-    "Overlay.tweaking/rewriting on a tooled copy. Non-trivial = >=1 binding was overridden and (>=1 binding "
+    "decline | a value equal to but distinguishable from the tentative one) or a plain probe, delivered through OverridableProbe.override/koverride/filter or through "
+    "Overlay.tweaking/rewriting on a tooled copy; plus call-path overrides of different depth, optionally with "
+    "value conditions on the enclosing calls, over generated call plans. Non-trivial = >=1 binding was overridden and (>=1 binding "
     "was declined or >=2 overrides applied to one binding); distinct by (source, input, script, focus, handlers)."
 )
 ASSUMPTIONS = [
